@@ -25,6 +25,8 @@ def handle_of(p):
 
 
 FLOOR_HINTS = ()   # candidate integer parts for `(int) x` of a symbolic double inside bridged calls (each decided by the solver)
+OMP_SCHED = "iter"  # "iter": one iteration per virtual thread (footprints); "chunks": the loop's own schedule on a team of OMP_NVT threads
+UNINIT = []         # per interpreter: uninitialised heap doubles read in team-schedule mode (each became an unconstrained real)
 OMP_NVT = None     # when set (C10 part B), every interpreter created through the bridge / ccall runs clang's -fopenmp IR in footprint mode
 
 
@@ -34,7 +36,10 @@ def new_interp(cfile, hybrid=False):
     it.floor_hints = list(FLOOR_HINTS)
     if OMP_NVT is not None:
         from . import omp
-        omp.attach(it, OMP_NVT)
+        omp.attach(it, OMP_NVT, OMP_SCHED)
+        if OMP_SCHED == "chunks":
+            it.garbage_uninit = True
+            UNINIT.append(it.uninit_reads)
     return it
 
 
